@@ -10,6 +10,7 @@ import (
 	"verif/mc/props/c05"
 	"verif/mc/props/c06"
 	"verif/mc/props/c07"
+	"verif/mc/props/c08"
 	"verif/mc/props/c09"
 	"verif/mc/props/c10"
 	"verif/mc/props/c11"
@@ -30,6 +31,7 @@ func main() {
 		"C05": c05.Prop,
 		"C06": c06.Prop,
 		"C07": c07.Prop,
+		"C08": c08.Prop,
 		"C09": c09.Prop,
 		"C10": c10.Prop,
 		"C11": c11.Prop,
